@@ -13,7 +13,7 @@ import (
 )
 
 func runUDP(c UCase, info *kit.Info, nat, metrics bool) *kit.Finding {
-	w, f := newUWorld(c, info, kit.PermitAll)
+	w, f := newUWorld(c, info, permitAllBut66)
 	defer w.close()
 	if f != nil {
 		return f
